@@ -67,4 +67,12 @@ def cmpKey (a b : Bytes) : Ordering :=
   | .gt => .gt
   | .eq => cmpBytes ((a.drop 4).take (a.length - 9)) ((b.drop 4).take (b.length - 9))
 
+
+
+/-- field comparison of the harness' key descriptor against a bound value (raw field bytes):
+field 0 = Uint32 little-endian, field 1 = ByteString (NUL-terminated in the tuple and in the bound) -/
+def fieldCmp (i : Nat) (t : Bytes) (v : Bytes) : Ordering :=
+  if i == 0 then compare (u32le t) (u32le v)
+  else cmpBytes ((t.drop 4).take (t.length - 9)) (v.take (v.length - 1))
+
 end DoltVerif.Prolly.Test
